@@ -9,7 +9,8 @@ EXPLANATION = (
     "creation of a spill file goes through the manager's tracked create_file (the path is pushed to the tracked list "
     "before the file exists), the manager's cleanup removes every tracked file, and each owner of spill state "
     "(SpillManager, AsyncSpillManager, ExternalSort, PartitionedState) has a Drop impl that reaches file removal; "
-    "(R2) the spill codec's writer and reader agree (same rule as C16-R4). Equality of results across strategies, "
+    "(R2) the spill codec's writer and reader agree (same rule as C16-R4). (R3) the comparator that sorts spilled runs and the one that merges them (found by use) treat direction and NULL placement alike. "
+    "Equality of results across strategies, "
     "worker counts or memory budgets is not decided.")
 ASSUMPTIONS = ["std::fs::remove_file / tokio remove_file are the removal primitives"]
 
